@@ -809,7 +809,7 @@ Qed.
 
 Lemma ser_idem u : ser (ser u) = ser u.
 Proof.
-  unfold ser at 1. rewrite time_avg_ser. cbn [ser u_total u_nf u_f u_sb u_ss u_p u_dom u_blk u_cli u_up].
+  unfold ser at 1. rewrite time_avg_ser. cbn [ser u_total u_nf u_f u_sb u_ss u_p u_dom u_blk u_cli u_up u_upt].
   rewrite !cut100_idem. reflexivity.
 Qed.
 
@@ -904,7 +904,7 @@ Qed.
 
 (** * The premises are satisfiable, the conclusions not vacuous *)
 
-Definition ex_e (r : Z) : entry := {| e_res := r; e_dom := 1; e_cli := 2; e_ups := [(1, true)]; e_time := 1500 |}.
+Definition ex_e (r : Z) : entry := {| e_res := r; e_dom := 1; e_cli := 2; e_ups := [(1, true, 2500)]; e_time := 1500 |}.
 Definition ex_all5 := [OUpdate (ex_e 1); OUpdate (ex_e 2); OUpdate (ex_e 3); OUpdate (ex_e 4); OUpdate (ex_e 5)].
 
 (** Three hours with five updates each under a 48 h limit; the limit is
